@@ -449,6 +449,67 @@ def r23_11(ctx, rep):
     no_text_keyed_tables(ctx, rep, "R23.11", GEN, "the CasADi generator", 20)
 
 
+@SPEC.rule(
+    "R23.12",
+    "no unchecked conversion outside the checked ones: apart from the two functions whose conversions R23.1 examines, no function of the CasADi "
+    "generator subscripts anything with `<value> - 1` — picking `values[k - 1]` out of an array literal with a Python list index makes k = 0 "
+    "the last element and k = -1 the one before it",
+)
+def r23_12(ctx, rep):
+    R = "R23.12"
+    probe = ast.parse("def f(v, k):\n    return v.values[g(k) - 1]\n").body[0]
+
+    def conversions(fn):
+        out = []
+        for s_ in ast.walk(fn):
+            if isinstance(s_, ast.Subscript):
+                for b in ast.walk(s_.slice):
+                    if isinstance(b, ast.BinOp) and isinstance(b.op, ast.Sub) and isinstance(b.right, ast.Constant) and b.right.value == 1 \
+                            and not isinstance(b.left, ast.Constant):
+                        out.append((s_.lineno, norm(s_)[:60]))
+        return out
+
+    if not conversions(probe):
+        raise AnalysisError(R, "self-test of the conversion detector failed")
+    mod = ctx.module(GEN, R)
+    n = 0
+    hits = []
+    for cls in [c for c in mod.body if isinstance(c, ast.ClassDef)]:
+        for fn in [f for f in cls.body if isinstance(f, ast.FunctionDef)]:
+            n += 1
+            if "%s.%s" % (cls.name, fn.name) in FUNCS:
+                continue
+            hits += ["%s.%s line %d: %s" % (cls.name, fn.name, ln, t) for ln, t in conversions(fn)]
+    if n < 30:
+        raise MechanismMissing(R, "fewer than 30 methods scanned in the CasADi generator")
+    rep.ob(R, GEN, "no 1-based value is used as a Python index without a range check", not hits, "; ".join(hits[:3]))
+
+
+@SPEC.rule(
+    "R23.13",
+    "no way around the range checks: every `return` of Generator.get_indexed_symbol (and of a helper split off from it) lies behind the loop "
+    "over the subscripts in which the bounds are tested — a shortcut in front of it (`an empty symbol stays empty`) accepts e[1] on Real e[0] "
+    "and silently drops the equation",
+)
+def r23_13(ctx, rep):
+    R = "R23.13"
+    fn = ctx.func(GEN, "Generator.get_indexed_symbol", R)
+    site = GEN + ":Generator.get_indexed_symbol"
+    cfg = CFG(fn, R)
+    loops = [lp for lp in walk_local(fn) if isinstance(lp, ast.For) and any(isinstance(x, ast.Raise) for b in lp.body for x in ast.walk(b))
+             and ("indices" in norm(lp.iter) or "shapes" in norm(lp.iter))]
+    if not loops:
+        raise MechanismMissing(R, "the loop over the subscripts that raises on a bad subscript was not found")
+    heads = {x.id for x in cfg.nodes if x.kind == "iter" and x.ast is loops[0]}
+    rets = [x for x in cfg.stmts() if isinstance(x.ast, ast.Return) and x.ast.value is not None]
+    if not rets:
+        raise MechanismMissing(R, "get_indexed_symbol returns nothing")
+    for k, r_ in enumerate(rets):
+        w = cfg.must_pass(cfg.entry, r_.id, heads)
+        rep.ob(R, site, "return #%d (`%s`) lies behind the subscript checks" % (k + 1, norm(r_.ast)[:40]), w is None,
+               "the function can return a selection without having looked at the subscripts", path=cfg.describe(w) if w else "")
+
+
 # -- seeded variants ---------------------------------------------------------
 from ._mut import replace_in_func  # noqa: E402
 
